@@ -115,21 +115,15 @@ func main() {
 			fmt.Printf("UNRESOLVED unknown property %q\n", id)
 			os.Exit(2)
 		}
-		code := runProp(pd, p, *tier, *verif, seed, replayKey)
+		code := runProp(pd, p, *tier, *repo, *verif, seed, replayKey)
 		if code == 1 || (code == 2 && exit == 0) {
 			exit = code
-		}
-		if *tier == "thorough" && replayKey == "" && code == 0 {
-			if st := runSelfTests(id, *repo, *verif); st != 0 {
-				fmt.Printf("SELFTEST-FAILED property=%s\n", id)
-				exit = 2
-			}
 		}
 	}
 	os.Exit(exit)
 }
 
-func runProp(pd *propDef, p *Program, tier, verif string, seed int64, replayKey string) (code int) {
+func runProp(pd *propDef, p *Program, tier, repo, verif string, seed int64, replayKey string) (code int) {
 	c := newCheck(pd.id, tier, p)
 	c.replayKey = replayKey
 	defer func() {
@@ -142,6 +136,13 @@ func runProp(pd *propDef, p *Program, tier, verif string, seed int64, replayKey 
 		}
 	}()
 	pd.run(c)
+	if tier == "thorough" && replayKey == "" {
+		res, ok := runMutantSet(pd, repo, verif)
+		c.selfTest = res
+		if !ok {
+			c.Unresolved("SELFTEST", "both-ways self-test failed (a breaking mutant was missed, a benign edit raised an alarm, or a mutant failed to load)")
+		}
+	}
 	return c.Finish(verif, seed, pd.explanation, pd.assumptions)
 }
 
